@@ -65,8 +65,56 @@ pub enum Undefined {
     Other(String),
 }
 
+/// Documented alternative readings the reference accepts (DESIGN.md Appendix B): the policy must
+/// follow ONE reading consistently on every record of a program.
+#[derive(Clone, Copy, Debug, Default, PartialEq)]
+pub struct RefMode {
+    /// `%a %c %t`: 0 = decimal seconds (what the snapshots show), 1.. = the C ctime format through strftime
+    pub ctime_style: u8,
+    /// `%h`: dirname of the absolute path instead of the relative one
+    pub h_abs: bool,
+    /// minute-unit time tests: age rounded up to whole minutes (GNU find's window) instead of down
+    pub min_ceil: bool,
+}
+
+pub const CTIME_FORMATS: [&str; 3] = ["%c", "%a %b %e %H:%M:%S %Y", "%a %b %d %H:%M:%S %Y"];
+
+impl RefMode {
+    /// The readings worth trying for a tree (default first).
+    pub fn candidates(e: &Expression) -> Vec<RefMode> {
+        let mut ts = vec![];
+        let mut av = vec![];
+        tests(e, &mut ts);
+        actions(e, &mut av);
+        let has_min = ts.iter().any(|t| matches!(t, Test::AccessTime(c) | Test::ChangeTime(c) | Test::ModifyTime(c) if matches!(cmp_inner(c), TimeSpec::Minute(_))));
+        let mut has_ct = false;
+        let mut has_h = false;
+        for a in av {
+            if let Action::PrintFormatted(f) | Action::FilePrintFormatted(_, f) = a {
+                for el in f {
+                    match el {
+                        FormatElement::Field(FormatField::Access | FormatField::Change | FormatField::Modify) => has_ct = true,
+                        FormatElement::Field(FormatField::Parents) => has_h = true,
+                        _ => {}
+                    }
+                }
+            }
+        }
+        let mut out = vec![];
+        for ct in 0..=(if has_ct { CTIME_FORMATS.len() as u8 } else { 0 }) {
+            for h in 0..=(has_h as u8) {
+                for m in 0..=(has_min as u8) {
+                    out.push(RefMode { ctime_style: ct, h_abs: h == 1, min_ceil: m == 1 });
+                }
+            }
+        }
+        out
+    }
+}
+
 pub struct Ctx<'a> {
     pub rec: &'a FileRecord,
+    pub mode: RefMode,
     pub now: i128,
     pub outs: Vec<(Dest, String)>,
     pub stop: bool,
@@ -80,21 +128,31 @@ fn name_match(pat: &str, subject: &str, ci: bool) -> bool {
     }
 }
 
-fn time_test(c: &Comparison<TimeSpec>, t: i128, now: i128) -> Result<bool, Undefined> {
+fn time_test(c: &Comparison<TimeSpec>, t: i128, now: i128, mode: RefMode) -> Result<bool, Undefined> {
     if t > now {
         return Err(Undefined::FutureTimestamp);
     }
     let (_, unit) = time_parts(cmp_inner(c));
-    let age_units = (now - t) / unit as i128;
+    let mut age_units = (now - t) / unit as i128;
+    if mode.min_ceil && unit == 60 {
+        age_units = (now - t + 59) / 60;
+    }
     Ok(cmp_i(c, age_units, |ts| time_parts(ts).0 as i128))
 }
 
-pub fn render_field(f: &FormatField, r: &FileRecord) -> Result<String, Undefined> {
+pub fn render_field(f: &FormatField, r: &FileRecord, mode: RefMode) -> Result<String, Undefined> {
+    let ct = |t: i128| {
+        if mode.ctime_style == 0 {
+            t.to_string()
+        } else {
+            format!("<strftime:{}:{}>", CTIME_FORMATS[(mode.ctime_style - 1) as usize], t)
+        }
+    };
     Ok(match f {
         FormatField::Percent => "%".to_string(),
-        FormatField::Access => r.atime.to_string(),
-        FormatField::Change => r.ctime.to_string(),
-        FormatField::Modify => r.mtime.to_string(),
+        FormatField::Access => ct(r.atime),
+        FormatField::Change => ct(r.ctime),
+        FormatField::Modify => ct(r.mtime),
         FormatField::AccessFormatted('@') => r.atime.to_string(),
         FormatField::ChangeFormatted('@') => r.ctime.to_string(),
         FormatField::ModifyFormatted('@') => r.mtime.to_string(),
@@ -109,7 +167,18 @@ pub fn render_field(f: &FormatField, r: &FileRecord) -> Result<String, Undefined
         FormatField::GroupId => r.gid.to_string(),
         FormatField::User => r.user.clone(),
         FormatField::UserId => r.uid.to_string(),
-        FormatField::Parents => r.dirname(),
+        FormatField::Parents => {
+            if mode.h_abs {
+                let a = r.abspath();
+                match a.rfind('/') {
+                    Some(0) => "/".to_string(),
+                    Some(i) => a[..i].to_string(),
+                    None => ".".to_string(),
+                }
+            } else {
+                r.dirname()
+            }
+        }
         FormatField::StartingPoint => r.mount.clone(),
         FormatField::InodeDecimal => r.ino.to_string(),
         FormatField::PermissionsOctal => format!("{:o}", r.mode & 0o7777),
@@ -174,11 +243,15 @@ pub fn render_special(s: &FormatSpecial) -> Result<String, Undefined> {
 }
 
 pub fn render_format(fmt: &[FormatElement], r: &FileRecord) -> Result<String, Undefined> {
+    render_format_mode(fmt, r, RefMode::default())
+}
+
+pub fn render_format_mode(fmt: &[FormatElement], r: &FileRecord, mode: RefMode) -> Result<String, Undefined> {
     let mut out = String::new();
     for el in fmt {
         match el {
             FormatElement::Literal(s) => out.push_str(s),
-            FormatElement::Field(f) => out.push_str(&render_field(f, r)?),
+            FormatElement::Field(f) => out.push_str(&render_field(f, r, mode)?),
             FormatElement::Special(s) => out.push_str(&render_special(s)?),
         }
     }
@@ -188,9 +261,9 @@ pub fn render_format(fmt: &[FormatElement], r: &FileRecord) -> Result<String, Un
 pub fn eval_test(t: &Test, c: &Ctx) -> Result<bool, Undefined> {
     let r = c.rec;
     Ok(match t {
-        Test::AccessTime(cmp) => time_test(cmp, r.atime, c.now)?,
-        Test::ChangeTime(cmp) => time_test(cmp, r.ctime, c.now)?,
-        Test::ModifyTime(cmp) => time_test(cmp, r.mtime, c.now)?,
+        Test::AccessTime(cmp) => time_test(cmp, r.atime, c.now, c.mode)?,
+        Test::ChangeTime(cmp) => time_test(cmp, r.ctime, c.now, c.mode)?,
+        Test::ModifyTime(cmp) => time_test(cmp, r.mtime, c.now, c.mode)?,
         Test::Empty => r.empty,
         Test::Executable => r.executable,
         Test::Readable => r.readable,
@@ -232,11 +305,11 @@ pub fn eval_action(a: &Action, c: &mut Ctx) -> Result<bool, Undefined> {
         Action::FilePrint(f) => c.outs.push((Dest::File(f.clone()), format!("{}\n", r.relpath))),
         Action::FilePrintNull(f) => c.outs.push((Dest::File(f.clone()), format!("{}\0", r.relpath))),
         Action::PrintFormatted(fmt) => {
-            let s = render_format(fmt, r)?;
+            let s = render_format_mode(fmt, r, c.mode)?;
             c.outs.push((Dest::Stdout, s))
         }
         Action::FilePrintFormatted(f, fmt) => {
-            let s = render_format(fmt, r)?;
+            let s = render_format_mode(fmt, r, c.mode)?;
             c.outs.push((Dest::File(f.clone()), s))
         }
         Action::PrintFid => c.outs.push((Dest::Stdout, format!("{}\n", r.fid))),
@@ -285,7 +358,11 @@ pub fn has_action(e: &Expression) -> bool {
 
 /// Full reference meaning of compiling-and-running `e` on `rec`, including the implicit print.
 pub fn reference(e: &Expression, rec: &FileRecord, now: i128) -> Result<Outcome, Undefined> {
-    let mut c = Ctx { rec, now, outs: vec![], stop: false };
+    reference_mode(e, rec, now, RefMode::default())
+}
+
+pub fn reference_mode(e: &Expression, rec: &FileRecord, now: i128, mode: RefMode) -> Result<Outcome, Undefined> {
+    let mut c = Ctx { rec, mode, now, outs: vec![], stop: false };
     let mut truth = eval_expr(e, &mut c)?;
     if !has_action(e) && truth {
         c.outs.push((Dest::Stdout, format!("{}\n", rec.relpath)));
@@ -374,7 +451,7 @@ pub fn unsupported_field(f: &FormatField) -> Option<&'static str> {
 
 /// Un-merged outputs (one entry per action execution) - the "whole records" of C16.
 pub fn reference_raw(e: &Expression, rec: &FileRecord, now: i128) -> Result<Vec<(Dest, String)>, Undefined> {
-    let mut c = Ctx { rec, now, outs: vec![], stop: false };
+    let mut c = Ctx { rec, mode: RefMode::default(), now, outs: vec![], stop: false };
     let truth = eval_expr(e, &mut c)?;
     if !has_action(e) && truth {
         c.outs.push((Dest::Stdout, format!("{}\n", rec.relpath)));
